@@ -105,7 +105,7 @@ def anderson_path_task(T, fit_intercept, init):
 
 for _fi in (False, True):
     for _init in ('none', 'support', 'empty-support'):
-        add_task(['C05', 'C18'], f'solvers:AndersonCD.path[fi={int(_fi)},w_init={_init}]', anderson_path_task, strength='B',
+        add_task(['C02', 'C05', 'C18'], f'solvers:AndersonCD.path[fi={int(_fi)},w_init={_init}]', anderson_path_task, strength='B',
                  fit_intercept=_fi, init=_init)
 
 
@@ -201,7 +201,7 @@ def multitask_path_task(T, fit_intercept, init):
 
 for _fi in (False, True):
     for _init in ('none', 'given'):
-        add_task(['C05', 'C18'], f'solvers:MultiTaskBCD.path[fi={int(_fi)},W_init={_init}]', multitask_path_task, strength='B',
+        add_task(['C02', 'C05', 'C18'], f'solvers:MultiTaskBCD.path[fi={int(_fi)},W_init={_init}]', multitask_path_task, strength='B',
                  fit_intercept=_fi, init=_init)
 
 
